@@ -1088,10 +1088,18 @@ func (p *scionPacketProcessor) processEPIC() disposition {
 
 	isPenultimate := p.path.IsPenultimateHop()
 	isLast := p.path.IsLastHop()
+	arrivalHF := int(p.path.PathMeta.CurrHF)
 
 	disp := p.process()
 	if disp != pForward {
 		return disp
+	}
+	if p.effectiveXover {
+		// process() crossed over to the first hop field of the next segment; that hop field (whose
+		// MAC is the cached one) is the one this AS acts on. If it is the penultimate hop of the
+		// path, the timestamp and the PHVF have to be checked here: no other router will.
+		isPenultimate = arrivalHF+1 == p.path.NumHops-2
+		isLast = arrivalHF+1 == p.path.NumHops-1
 	}
 
 	if isPenultimate || isLast {
